@@ -20,7 +20,7 @@ FAMILIES = {
     "C17": dict(cfgs=[("MC_ClientLib_C17.cfg", 8, 9)], devs=["NoDupPublish", "PubrelDropped", "NilOnTerminate"],
                 devsigs=["C17/retransmit-no-dup", "C17/pubrel-unanswered", "C17/publish-result-vs-ack"],
                 devmax=7, quick_sample=600, sim=(400, 30)),
-    "C27": dict(cfgs=[("MC_ClientLib_C27.cfg", 7, 8)], devs=[], quick_sample=400, sim=(400, 30), repeat=2, vectors=True),
+    "C27": dict(cfgs=[("MC_ClientLib_C27.cfg", 7, 8)], devs=[], quick_sample=300, sim=(400, 30), repeat=2, vectors=True),
     "C28": dict(cfgs=[("MC_ClientLib_C28.cfg", 5, 6), ("MC_ClientLib_C28ka.cfg", 5, 6)], devs=["KaSync", "NilOnTerminate"],
                 devsigs=["C28/goroutines-after-end"],
                 devcfg="MC_ClientLib_C28ka.cfg", quick_sample=600, sim=(400, 25)),
@@ -284,6 +284,25 @@ def design_and_generate(fam, tier, notes):
     return states, trans, scheds, devhits
 
 
+def extra_schedules(fam):
+    """A few directed schedules (same event format as TLC's) for timings the generator's
+    time steps (always to the next timer) cannot express."""
+    A0 = dict(api="", call="", tl=[], short=False, stid=0, qos=0, tid=0, dur=0, dsec=0, h="", pl="s:p1")
+    G0 = dict(t="", qos=0, tit=0, tid=0, mid=0, rc=0, tl=[], data="s:m1", dup=False, midsrc="none")
+    api = lambda call, a, **kw: dict(e="api", a=dict(A0, api=a, call=call, **kw))
+    gw = lambda t, **kw: dict(e="gw", p=dict(G0, t=t, **kw))
+    adv = lambda n: dict(e="adv", n=n)
+    conn = [api("c0", "Connect"), gw("CONNACK")]
+    out = []
+    if fam == "C28":
+        conf = cfg_consts(read_cfg("MC_ClientLib_C28.cfg"))
+        # a duplicated DISCONNECT reply late in the sleep period
+        out.append((conf, conn + [api("c1", "Sleep", dur=10, dsec=1), gw("DISCONNECT"), adv(9), gw("DISCONNECT")], "extra:late-duplicate-disconnect"))
+        out.append((conf, conn + [api("c1", "Sleep", dur=10, dsec=1), adv(1), gw("DISCONNECT"), adv(5), gw("DISCONNECT"), adv(9), gw("DISCONNECT")],
+                    "extra:repeated-duplicate-disconnect"))
+    return out
+
+
 def select(scheds, tier, fam):
     rnd = random.Random(vlib.seed())
     trans = [x for x in scheds if x[2] == "transition"]
@@ -318,7 +337,7 @@ def run_family(fam, tier, want_props):
     notes = []
     states, trans, scheds, devhits = design_and_generate(fam, tier, notes)
     t_design = time.time() - t0
-    chosen = select(scheds, tier, fam)
+    chosen = select(scheds, tier, fam) + extra_schedules(fam)
     scs = []
     meta = {}
     rep = FAMILIES[fam].get("repeat", 1) if tier == "quick" else FAMILIES[fam].get("repeat", 1) * 3
@@ -359,7 +378,7 @@ def run_family(fam, tier, want_props):
         ev = evs[c["event"]] if 0 <= c["event"] < len(evs) else {"e": "epilogue"}
         what = ev.get("api") or (ev.get("p") or {}).get("t") or ev["e"]
         if c["panic"]:
-            sig = "C25/client-panic/%s" % what
+            sig = "C25/client-panic/%s/%s" % (what, panic_site(c["output"]))
         else:
             sig = "HARNESS/driver-died/%s" % what
         rec = dict(sig=sig, what="driver process died in scenario %s at event %d: %s" % (sc["id"], c["event"], c["output"][-400:]),
@@ -434,19 +453,92 @@ def run(prop, tier, replay=None):
     return rc
 
 
+def panic_site(output):
+    """Innermost client-package method on the panicking stack, preferring a transaction method."""
+    fns = re.findall(r"bisquitt/client\.\(\*(\w+)\)\.(\w+)", output)
+    for t, m in fns:
+        if t.endswith("ransaction"):
+            return "%s.%s" % (t, m)
+    return "%s.%s" % fns[0] if fns else "unknown"
+
+
+def race_scenarios():
+    """Gated schedules (harness Logger as scheduler gate, DESIGN 4.2): a goroutine of the client is parked
+    at one of its existing Debug() calls while the packet it races with is handled, then released.
+    They are outside the quiescent-step specification: only a death of the process is judged (C25/C18)."""
+    cfg = dict(cid="vc", rd=3, rc=2, ct=4, ka=0, predef=[])
+    api = lambda call, a, **kw: dict(e="api", call=call, api=a, **kw)
+    gw = lambda t, **kw: dict(e="gw", p=dict(t=t, **kw))
+    conn = [api("c0", "Connect"), gw("CONNACK", rc=0)]
+    reg = [api("c1", "Register", topic="a/b"), gw("REGACK", mid=1, tid=7, rc=0)]
+    return [
+        # sleepTransaction.resendDisconnect (timer) vs Disconnect() (reply): t.disconnect = nil
+        dict(id="race-sleep-resend-vs-reply", cfg=cfg, seed=1, tail=8, events=conn + [
+            api("c1", "Sleep", dur=20), dict(e="gate", pat="DISCONNECT resend no"), dict(e="adv", n=3),
+            dict(e="gwrace", p=dict(t="DISCONNECT"), until="asleep"), dict(e="adv", n=4)]),
+        # sleepTransaction.wakeup (timer) vs PINGRESP / DISCONNECT
+        dict(id="race-wakeup-vs-pingresp", cfg=cfg, seed=1, tail=8, events=conn + [
+            api("c1", "Sleep", dur=10), gw("DISCONNECT"), dict(e="gate", pat="Awake"), dict(e="adv", n=10),
+            dict(e="gwrace", p=dict(t="PINGRESP"), until="none"), dict(e="adv", n=4)]),
+        # RetryTransaction retry callback vs acknowledgement (PUBLISH QoS 1, SUBSCRIBE, DISCONNECT)
+        dict(id="race-publish-resend-vs-puback", cfg=cfg, seed=1, tail=8, events=conn + reg + [
+            api("c2", "Publish", topic="a/b", qos=1, pl="s:p1"), dict(e="gate", pat="Resend."), dict(e="adv", n=3),
+            dict(e="gwrace", p=dict(t="PUBACK", mid=2, tid=7), until="none"), dict(e="adv", n=4)]),
+        dict(id="race-disconnect-resend-vs-reply", cfg=cfg, seed=1, tail=8, events=conn + [
+            api("c1", "Disconnect"), dict(e="gate", pat="Resend."), dict(e="adv", n=3),
+            dict(e="gwrace", p=dict(t="DISCONNECT"), until="none"), dict(e="adv", n=4)]),
+        dict(id="race-sleep-final-resend-vs-reply", cfg=dict(cfg, rc=0), seed=1, tail=8, events=conn + [
+            api("c1", "Sleep", dur=20), dict(e="gate", pat="DISCONNECT reply timeout"), dict(e="adv", n=3),
+            dict(e="gwrace", p=dict(t="DISCONNECT"), until="asleep"), dict(e="adv", n=25)]),
+    ]
+
+
+def run_races(binary):
+    scs = race_scenarios()
+    lines, crashes = run_batch(binary, scs, "race")
+    viols = []
+    for c in crashes:
+        sc = c["scenario"]
+        if c["panic"]:
+            m = re.search(r"panic: ([^\n]*)", c["output"])
+            where = panic_site(c["output"])
+            viols.append(dict(sig="C25/client-panic/%s/%s" % (sc["id"], where),
+                              what="client panics in gated schedule %s: %s" % (sc["id"], m.group(1) if m else ""),
+                              replay=dict(scenario=sc, event=c["event"], output=c["output"])))
+        else:
+            raise vlib.Inconclusive("driver died without panic in %s:\n%s" % (sc["id"], c["output"][-1500:]))
+    return viols, len(scs), len(lines)
+
+
 def run_client_half(prop, tier):
     """Client-library half of a property owned by another family.
-    Returns (violations, coverage_dict); raises vlib.Inconclusive on harness problems / model gaps."""
+    Returns (violations, coverage_dict).  For C25 only deaths of the process (panics in the code under
+    test) are violations; model/code differences are counted in the coverage, never raised.  For the
+    other properties a model gap raises vlib.Inconclusive."""
     fams = HALF.get(prop)
     if not fams:
         raise vlib.Inconclusive("clientlib has no client half for %s" % prop)
     viols, cov = [], None
+    races = None
+    if prop in ("C25", "C18"):
+        races = run_races(vlib.build_driver("cldrv"))
+        for v in races[0]:
+            if prop == "C18":
+                v = dict(v, sig=v["sig"].replace("C25/client-panic/", "C18/sleep-or-retry-timer-after-completion/"))
+            viols.append(v)
+        if prop == "C18":
+            return viols, dict(evaluations=races[1], distinct_nontrivial=races[1], traces_validated_against_impl=0, states=0, transitions=0,
+                               samples=[s["events"] for s in race_scenarios()[:1]], exhaustive=False,
+                               rule="gated timer/reply races of sleepTransaction and RetryTransaction users; only process death is judged")
     for fam in fams:
         R = run_family(fam, tier, [prop])
-        if R["gaps"]:
+        if R["gaps"] and prop != "C25":
             raise vlib.Inconclusive("clientlib model gap: %s %s" % (R["gaps"][0]["sig"], R["gaps"][0]["what"]))
         viols += [v for v in R["violations"] if v["sig"].startswith(prop + "/")]
         c = coverage_of(R, prop)
+        c["desync_traces"] = len(R["gaps"])
+        if races:
+            c["gated_race_schedules"] = races[1]
         if cov is None:
             cov = c
         else:
@@ -454,6 +546,7 @@ def run_client_half(prop, tier):
                       "schedules_executed", "trace_lines"):
                 cov[k] += c[k]
             cov["tlc"] += c["tlc"]
+            cov["desync_traces"] = cov.get("desync_traces", 0) + c["desync_traces"]
     return viols, cov
 
 
